@@ -40,8 +40,20 @@ def fingerprint(K):
     return hash160(secp.sec(K))[:4]
 
 
+# The PRF used by every reference derivation. Checks that substitute the PRF in the implementation install the *same*
+# function here (PRF_HOOK[0]) so both sides compute with one function; TRACE (when a list) records (key, msg, k_par).
+PRF_HOOK = [hmac_sha512]
+TRACE = [None]
+
+
+def _prf(key, msg, kpar):
+    if TRACE[0] is not None:
+        TRACE[0].append((key, msg, kpar))
+    return PRF_HOOK[0](key, msg)
+
+
 def master(seed):
-    I = hmac_sha512(b"Bitcoin seed", seed)
+    I = _prf(b"Bitcoin seed", seed, 0)
     k = int.from_bytes(I[:32], "big")
     if k == 0 or k >= N:
         raise ValueError("invalid master")
@@ -56,14 +68,14 @@ def node_from_pub(K, chain, depth=0, index=0, pfp=b"\x00" * 4):
     return Node(None, K, chain, depth, index, pfp)
 
 
-def ckd_priv(node, i, prf=hmac_sha512):
+def ckd_priv(node, i, prf=None):
     """CKDpriv; raises ValueError for the invalid-child cases of BIP32."""
     assert node.k is not None and 0 <= i < 2**32
     if i >= H:
         data = b"\x00" + node.k.to_bytes(32, "big") + i.to_bytes(4, "big")
     else:
         data = secp.sec(node.K) + i.to_bytes(4, "big")
-    I = prf(node.chain, data)
+    I = prf(node.chain, data) if prf else _prf(node.chain, data, node.k)
     il = int.from_bytes(I[:32], "big")
     if il >= N:
         raise ValueError("IL >= n")
@@ -73,11 +85,12 @@ def ckd_priv(node, i, prf=hmac_sha512):
     return Node(k, secp.pub(k), I[32:], node.depth + 1, i, fingerprint(node.K))
 
 
-def ckd_pub(node, i, prf=hmac_sha512):
+def ckd_pub(node, i, prf=None):
     assert 0 <= i < 2**32
     if i >= H:
         raise ValueError("hardened from public")
-    I = prf(node.chain, secp.sec(node.K) + i.to_bytes(4, "big"))
+    data = secp.sec(node.K) + i.to_bytes(4, "big")
+    I = prf(node.chain, data) if prf else _prf(node.chain, data, None)
     il = int.from_bytes(I[:32], "big")
     if il >= N:
         raise ValueError("IL >= n")
@@ -87,7 +100,7 @@ def ckd_pub(node, i, prf=hmac_sha512):
     return Node(None, K, I[32:], node.depth + 1, i, fingerprint(node.K))
 
 
-def derive(node, path, prf=hmac_sha512):
+def derive(node, path, prf=None):
     for i in path:
         node = ckd_priv(node, i, prf) if node.k is not None else ckd_pub(node, i, prf)
     return node
@@ -249,7 +262,7 @@ BIP85_ROOT = 83696968
 def bip85_entropy(master_node, path):
     """path: list of *unhardened* numbers; every level is hardened per BIP85."""
     node = derive(master_node, [H + p for p in path])
-    return hmac_sha512(b"bip-entropy-from-k", node.k.to_bytes(32, "big"))
+    return _prf(b"bip-entropy-from-k", node.k.to_bytes(32, "big"), None)
 
 
 def _chk_index(i):
